@@ -80,6 +80,59 @@ def context(text, r, frag):
     return "host-line[%s]/fragment-ends-with-%s" % (shape, ends)
 
 
+def seams_pass(v, work, stats, cfg):
+    """spec/Seams.tla: prev ; [fragment] ; next for every kind of statement end and statement start"""
+    from . import seams as SM
+    cases = SM.emit(work, stats, '{"lastValue", "exprFlag"}')
+    jobs, meta = [], []
+    for c in cases:
+        base, with_f, r, n = SM.programs(c)
+        jobs.append({"cfg": cfg, "files": {"t.rb": base}, "args": ["t.rb", "-i"]})
+        meta.append(None)
+        jobs.append({"cfg": cfg, "files": {"t.rb": with_f}, "args": ["t.rb", "-i"]})
+        meta.append((c, r, n))
+    wr = C.Runner(work, "worker")
+    try:
+        results = wr.run_many(jobs)
+    finally:
+        wr.close()
+    compared = 0
+    for i, (m, job, res) in enumerate(zip(meta, jobs, results)):
+        if m is None:
+            continue
+        c, r, n = m
+        b = results[i - 1]
+        if b.hung or b.crashed or b.get("exit") != 0:
+            v.count("seam_base_fails_skipped")
+            continue
+        compared += 1
+        want = C.parse_lines(b["out"])
+        got = host_lines(C.parse_lines(res.get("out") or ""), r, r + n - 1, n) if not (res.hung or res.crashed) else [("!", "", 0, str(res.get("cls")))]
+        if sorted(want) == sorted(got):
+            continue
+        v.count("differences")
+        key = "seam:%s->%s" % (c["fragEnd"], c["next"])
+        if c["next"] == "bracket-line":
+            key = "Dev_BracketLineContinuesPreviousStatement"
+        if v.seen(key):
+            v.again(key)
+            continue
+        bb = C.confirm_alone(work, {"cfg": cfg, "files": jobs[i - 1]["files"], "args": job["args"]}, runs=1)[0]
+        eb = C.confirm_alone(work, {"cfg": cfg, "files": job["files"], "args": job["args"]}, runs=1)[0]
+        want2 = C.parse_lines(bb.get("out") or "")
+        got2 = host_lines(C.parse_lines(eb.get("out") or ""), r, r + n - 1, n)
+        if sorted(want2) == sorted(got2) and not eb.get("timeout") and not eb.get("panic"):
+            v.count("not_reproduced_blackbox")
+            continue
+        diff = [x for x in got2 if x not in want2][:3] + [("missing",) + x for x in want2 if x not in got2][:3]
+        files = C.job_files_for_replay({"cfg": cfg, "files": job["files"], "args": job["args"]})
+        files["base/t.rb"] = jobs[i - 1]["files"]["t.rb"]
+        v.fail(key, "seam: a fragment ending in %s before a host statement starting as %s (previous host statement: %s) changes "
+                    "host output: %r" % (c["fragEnd"], c["next"], c["prev"], diff), files,
+               detail={"base_out": bb.get("out"), "with_fragment_out": eb.get("out")})
+    return {"seam_cases": len(cases), "seams_compared": compared}
+
+
 def run(tier, work):
     v = C.Verdict("C11", tier, work)
     rng = C.tier_rng(tier, 11)
@@ -153,13 +206,17 @@ def run(tier, work):
         files["base/t.rb"] = jobs[base_i]["files"]["t.rb"]
         v.fail(key, "%s: fragment %r inserted before row %d changes host output: %r" % (tag, frs[fi][:3], r, diff), files,
                detail={"base_out": bb.get("out"), "with_fragment_out": eb.get("out")})
+    seam_info = seams_pass(v, work, stats, cfg)
+    compared += seam_info["seams_compared"]
     v.sample({"fragment": frs[0]})
     v.sample({"fragment": frs[-1]})
     cov = {"states": stats["states"], "transitions": stats["transitions"], "traces_validated_against_impl": compared,
-           "hosts": len(hosts), "fragments": len(frs), "insertions_compared": compared,
+           "hosts": len(hosts), "fragments": len(frs), "insertions_compared": compared, "seams": seam_info,
            "rule": "fragments = behaviours of Core / Narrow / Blocks rendered over fresh names (+4 literal-first templates), "
                    "inserted at statement boundaries that are not last in their body, and appended; hosts = corpus + "
-                   "generated programs; outputs (diagnostics and -i hints) of host rows compared as multisets"}
+                   "generated programs; outputs (diagnostics and -i hints) of host rows compared as multisets; "
+                   "Seams.tla: every (previous statement end, fragment end, next statement start) triple rendered with and "
+                   "without the fragment"}
     return v.finish("model_checking", cov, assumptions=[
         "fragment variables (suffix _vq / prefix vq_) occur in no host program",
         "statement boundaries of corpus hosts found conservatively by the harness' scanner"])
